@@ -223,7 +223,7 @@ Theorem C16_compile_vm_safe_ctl_partial : forall (p : slist) (st : cstate),
     match vm_step prog s with
     | Running _ | Failed _ => True
     | Halted s' => ip s' = N.of_nat (List.length (pcode prog)) /\ sp_of s' = plcount prog
-    | Crashed c => c = CType \/ (repeat_guarded = false /\ c = CHost)
+    | Crashed c => c = CType
     end.
 Proof.
   intros p st HF HC HB prog. apply wf_vm_safe_partial.
